@@ -12,6 +12,8 @@ pub enum Ev {
     Frame { name: String, bytes: Vec<u8> },
     Wait(u64),
     Prune(u64),
+    /// the receiver location passed to the following action() calls changes (radar does this from gpsd)
+    Rx(f64, f64),
 }
 
 impl Ev {
@@ -20,6 +22,7 @@ impl Ev {
             Ev::Frame { name, bytes } => format!("{name}[{}]", crate::bits::hex(bytes)),
             Ev::Wait(ns) => format!("wait({ns}ns)"),
             Ev::Prune(t) => format!("prune({t}s)"),
+            Ev::Rx(la, lo) => format!("rx({la},{lo})"),
         }
     }
 }
@@ -63,6 +66,8 @@ pub fn alphabet_c12() -> Vec<Ev> {
     for (n, a) in [("a1", A1), ("a2", A2)] {
         v.push(fr(&format!("{n}.identAAA"), enc::es_frame(17, 5, a, enc::me_ident(4, 0, "AAA"))));
         v.push(fr(&format!("{n}.identBBB"), enc::es_frame(17, 5, a, enc::me_ident(2, 3, "BBB"))));
+        // eight space characters: a legal, blank identification (decodes to the empty string)
+        v.push(fr(&format!("{n}.identBlank"), enc::es_frame(17, 5, a, enc::me_ident(4, 0, "        "))));
         v.push(fr(&format!("{n}.vel"), enc::es_frame(17, 5, a, enc::me_vel_kt(100, -200, 640))));
         v.push(fr(&format!("{n}.vel0"), enc::es_frame(17, 5, a, enc::me_vel_gs(1, 0, 0, 0, 5, 0, 0, 3))));
         v.extend(pos_letters(&format!("{n}.p1"), a, p1, 10000));
@@ -152,6 +157,10 @@ pub fn alphabet_c13(rx: (f64, f64), range: f64, tier: Tier) -> Vec<Ev> {
     // second aircraft
     let q = dest(rx, 30.0, 180.0);
     v.extend(pos_letters("a2.q0", A2, q, 2000));
+    // the receiver itself moves 10 km (and back): distances are measured from where it is at each call
+    let moved = dest(rx, 10.0, 45.0);
+    v.push(Ev::Rx(moved.0, moved.1));
+    v.push(Ev::Rx(rx.0, rx.1));
     v
 }
 
@@ -201,6 +210,7 @@ pub fn alphabet_c14(rx: (f64, f64)) -> Vec<Ev> {
     for (n, a) in [("a1", A1), ("a2", A2)] {
         v.push(fr(&format!("{n}.identAAA"), enc::es_frame(17, 5, a, enc::me_ident(4, 0, "AAA"))));
         v.push(fr(&format!("{n}.identB_B"), enc::es_frame(17, 5, a, enc::me_ident(4, 0, "B B12345"))));
+        v.push(fr(&format!("{n}.identBlank"), enc::es_frame(17, 5, a, enc::me_ident(4, 0, "        "))));
         v.push(fr(&format!("{n}.vel1"), enc::es_frame(17, 5, a, enc::me_vel_kt(100, -200, 640))));
         v.push(fr(&format!("{n}.vel2"), enc::es_frame(17, 5, a, enc::me_vel_kt(-5, 300, -1280))));
         // same track as vel1 (bit-identical heading), twice the speed, another vertical rate
@@ -224,6 +234,7 @@ pub fn alphabet_c15(t: u64) -> Vec<Ev> {
         fr("nonES.df11.a1", enc::df11_frame(5, A1, 0)),
         fr("a1.df18.tc0", enc::df18_with_pi(0, A1, 0, A2)),
         fr("a1.tc31", enc::es_frame(17, 5, A1, 31u64 << 51)),
+        fr("a2.vel0", enc::es_frame(17, 5, A2, enc::me_vel_gs(1, 0, 0, 0, 5, 0, 0, 3))),
         fr("a1.p.even", enc::es_frame(17, 5, A1, enc::me_pos_latlon(11, 10000, false, 35.2, -80.2))),
         fr("a1.p.odd", enc::es_frame(17, 5, A1, enc::me_pos_latlon(11, 10000, true, 35.2, -80.2))),
         Ev::Wait(1),
